@@ -1,10 +1,9 @@
 #!/bin/sh
-# Build the framework from files on disk only (offline): generated Coq files, the whole development, the OCaml driver, the staged extension.
-set -e
+# Build the framework from files on disk only (offline): generated Coq files, the whole development,
+# the per-property OCaml drivers, the staged extension.  Failures here are reported again by the checks.
 cd "$(dirname "$0")"
 export CARGO_NET_OFFLINE=true
-cd tools && python3 -m vlib.gen || true
-cd ../coq && coq_makefile -f _CoqProject -o Makefile >/dev/null && timeout 7200 make -j16 -k || true
-cd ../tools && python3 -c "
-from vlib import model, stage
-print('driver', model.build_driver()[0]); print('extension', stage.build_extension()[1] is None)"
+(cd tools && python3 -m vlib.gen)
+(cd coq && coq_makefile -f _CoqProject -o Makefile >/dev/null && timeout 7200 make -j16 -k)
+python3 tools/setup_build.py
+exit 0
